@@ -13,7 +13,13 @@ def pV2 : Parser (V2 Float) := fun ts => do
   let (b, ts) ← pFloat ts
   pure (⟨a, b⟩, ts)
 
-def moreOps : List String := ["scalealongnormal", "scale2d", "normalize2d", "copyattr"]
+def moreOps : List String := ["scalealongnormal", "scale2d", "normalize2d", "copyattr", "cropnode", "alongnormalnode"]
+
+/-- an optional token: `-` = the node input is not wired (nil) -/
+def pOptTok : Parser (Option String)
+  | "-" :: ts => some (none, ts)
+  | t :: ts => some (some t, ts)
+  | [] => none
 
 def applyMore (op : String) (ts : List String) : Option (Option (List MV)) :=
   match op with
@@ -34,6 +40,27 @@ def applyMore (op : String) (ts : List String) : Option (Option (List MV)) :=
       let (m, ts) ← pMesh ts
       let (src, _) ← pMesh ts
       one (m.copyAttr src ⟨w, name⟩)
+  | "cropnode" => do      -- CropAttribute3DNodeData.Process: attr|- (cx cy cz ex ey ez)|- mesh
+      let (attr, ts) ← pOptTok ts
+      match ts with
+      | "-" :: ts => do
+          let (m, _) ← pMesh ts
+          oneO (m.cropNode attr none)
+      | _ => do
+          let (c, ts) ← pV3 ts; let (e, ts) ← pV3 ts
+          let (m, _) ← pMesh ts
+          let box : geometry.AABB Float := ⟨c, e⟩
+          oneO (m.cropNode attr (some fun p => match v3? p with | some v => box.Contains v | none => false))
+  | "alongnormalnode" => do   -- ScaleAttributeAlongNormalNodeData.Process: attr|- normal|- amount|- mesh|-
+      let (attr, ts) ← pOptTok ts; let (nrm, ts) ← pOptTok ts
+      let (amount, ts) ← (match ts with
+        | "-" :: ts => some (none, ts)
+        | _ => (pFloat ts).map fun xt => (some xt.1, xt.2))
+      match ts with
+      | ["-"] => oneO (MeshVal.scaleAlongNormalNode none attr nrm amount)
+      | _ => do
+          let (m, _) ← pMesh ts
+          oneO (MeshVal.scaleAlongNormalNode (some m) attr nrm amount)
   | _ => none
 
 end Driver.MeshIO
